@@ -168,7 +168,8 @@ fn main() {
         std::process::exit(2)
     });
     let cfg: Value = serde_json::from_str(&std::fs::read_to_string(&path).expect("read scenario")).expect("scenario json");
-    let mut report = json!({"pid": std::process::id()});
+    let mut report = json!({"pid": std::process::id(), "at_entry": unsafe { libc::getauxval(libc::AT_ENTRY) }, "at_sysinfo_ehdr": unsafe { libc::getauxval(libc::AT_SYSINFO_EHDR) },
+                            "exe": std::fs::read_link("/proc/self/exe").map(|p| p.to_string_lossy().into_owned()).unwrap_or_default()});
 
     // shared counters page
     if let Some(sp) = cfg.get("shared_path").and_then(|v| v.as_str()) {
